@@ -431,6 +431,8 @@ func run(c *runner.Ctx) {
 	}
 	hb := newHeartbeat(c)
 	defer hb.close()
+	c.Count("watchdog_kills", 0) // reported also when nothing was killed
+	c.Count("hangs_confirmed", 0)
 
 	// The cases are executed one after the other by one goroutine; this
 	// goroutine only watches the clock. When a case does not return within the
@@ -550,15 +552,7 @@ func executor(c *runner.Ctx, e *env, hb *heartbeat, seqs []int, p *progress, fro
 	return counts
 }
 
-var dumpFile *os.File
-
 func record(c *runner.Ctx, k kase, r *result) {
-	if d := os.Getenv("C07_DUMP_DIR"); d != "" {
-		if dumpFile == nil {
-			dumpFile, _ = os.Create(filepath.Join(d, fmt.Sprintf("dump-%d", c.Worker)))
-		}
-		fmt.Fprintf(dumpFile, "%s\t%q\t%s\n", k.Class, strings.TrimPrefix(k.Conf, prelude), r.outcome)
-	}
 	c.Count("configurations", 1)
 	c.Count("evaluations", int64(r.builds+r.seqs))
 	c.Count("sequences_run", int64(r.seqs))
